@@ -19,7 +19,8 @@ Operation kinds (base = basename of the file concerned):
             fails with ENOSPC once "byte" bytes have reached it (base = the name without ".tmp"); the device stays full (fault mode only)
 crash  = SIGKILL to the whole process group (main process, pool workers, manager servers) at the event; variant "term" (per-gene steps of the
          overlap stage): SIGTERM to the main process only, the harness removes whatever is left of the group once the main process has ended
-fault  = OSError(ENOSPC) raised by the file operation / RuntimeError raised by the computation step."""
+fault  = OSError raised by the file operation - errno of the spec ("errno": "ENOSPC" by default, also "EACCES" = PermissionError, "EIO") - /
+         RuntimeError raised by the computation step."""
 import errno, json, os, runpy, signal, sys
 
 SPEC = json.load(open(sys.argv[1]))
@@ -57,8 +58,10 @@ def die():
 
 
 def enospc(what):
+    """the fault: OSError with the errno of the spec (default ENOSPC; EACCES gives a PermissionError, EIO a plain OSError)"""
     _log({"kind": "FAULT", "what": what, "pid": os.getpid()})
-    raise OSError(errno.ENOSPC, "No space left on device (injected by vh.launch at %s)" % what)
+    code = getattr(errno, SPEC.get("errno", "ENOSPC"))
+    raise OSError(code, "%s (injected by vh.launch at %s)" % (os.strerror(code), what))
 
 
 def event(what, h5file=None):
